@@ -890,29 +890,29 @@ func c07RunLocal(c *Case) (string, []Fail) {
 		}
 		res := c07RunStream(cf, s, z)
 		what := c07DescribeCase(c)
-		// the run without the malformed records is comparable when every line of the stream is a record start
-		// line within the limit (C08's side condition): then the records are the lines, whatever the timing
+		// The stream as the client SENT it: when every line has the header shape "<PRI>1 " (an independent reference,
+		// not the reader's own predicate) and fits C08's bound, the records are the lines, whatever the timing:
+		// every line must reach the parser as a record of its own (C07_every_sent_record_accounted) ...
 		var rerun func(keep []bool) c07RunResult
-		stream := bytes.Join(s, nil)
-		lines := bytes.Split(bytes.TrimSuffix(stream, []byte("\n")), []byte("\n"))
-		allStart := bytes.HasSuffix(stream, []byte("\n")) && len(lines) == len(res.input)
-		for i, l := range lines {
-			if !syslogprotocol.TestRecordStart(l) || 2*len(l)+1+cf.MaxRec > cf.LineBuf || (allStart && !bytes.Equal(l, res.input[i])) {
-				allStart = false
-			}
-		}
-		if allStart {
-			rerun = func(keep []bool) c07RunResult {
-				var sub []byte
-				for i, l := range lines {
-					if keep[i] {
-						sub = append(append(sub, l...), '\n')
+		lines := c07SentLines(cf, c07StreamText(s, z))
+		var sentFails []Fail
+		if lines != nil {
+			var asSent bool
+			sentFails, asSent = c07SentOracle(lines, &res, what)
+			// ... and the run without the malformed ones is comparable (C07_neighbours_unchanged)
+			if asSent {
+				rerun = func(keep []bool) c07RunResult {
+					var sub []byte
+					for i, l := range lines {
+						if keep[i] {
+							sub = append(append(sub, l...), '\n')
+						}
 					}
+					return c07RunStream(cf, [][]byte{sub}, []int64{0, 2})
 				}
-				return c07RunStream(cf, [][]byte{sub}, []int64{0, 2})
 			}
 		}
-		fails := c07Oracle(cf, &res, rerun, what)
+		fails := append(sentFails, c07Oracle(cf, &res, rerun, what)...)
 		return res.output(), fails
 	case 2:
 		return c07RunSample(c)
